@@ -130,13 +130,11 @@ def cont_match(impl, mf, mr, scale, tally, rel=1e-12, abs_=1e-12):
     if f2b(iv) == mf or (iv == 0.0 and b2f(mf) == 0.0):
         tally.bit_exact += 1
         return True
-    ref = frac_of(mr) if mr is not None else frac_of(mf)
-    if ref is None:
-        return False
     tol = Fraction(rel) * abs(Fraction(scale)) + Fraction(abs_)
-    if abs(Fraction(iv) - ref) <= tol:
-        tally.tolerance += 1
-        return True
+    for ref in (frac_of(mf), frac_of(mr) if mr is not None else None):
+        if ref is not None and abs(Fraction(iv) - ref) <= tol:
+            tally.tolerance += 1
+            return True
     return False
 
 
